@@ -16,5 +16,16 @@ for f in sys.argv[1:]:
         print('  rules',repr(s.get('rules')))
         for n in s['tree']: print('    ',n)
         for n in s['runs']: print('   run',n)
+    elif r['world']=='bw':
+        print('  uid',s['uid'],'faults',s.get('faults'),'post',s.get('post'),'corrupt',s.get('corrupt'))
+        if s.get('manifest'): print('  MANIFEST',s['manifest'][:600])
+        if s.get('strings'): print('  STRINGS',s['strings'])
+        for i,p in enumerate(s.get('pkgs') or []):
+            print('  PKG',i,p['base'],p.get('query'),'rules',repr(p.get('rules')),'commit',bool(p.get('commit')))
+            for x in p.get('files') or []: print('      ',x)
+            for m in p.get('mods') or []: print('     MOD',m)
+        for g in s.get('regs') or []: print('  REG',g)
+        print('  ADDS',s.get('adds')); 
+        for v in s.get('variants') or []: print('  VAR',v)
     else:
         print(json.dumps(s,indent=1)[:3000])
